@@ -10,17 +10,18 @@ from ..core import Violation, Skip
 
 @st.composite
 def history(draw, dims=(1, 2), pmin=1, pmax=3, n0max=3, max_steps=3, max_levels=4, disparities=(None, 1, 2),
-            truncate=None, bdspecs_mode="any", mult_prob=0.15, containers=("set", "list", "tuple", "frozenset", "live")):
+            truncate=None, bdspecs_mode="any", mult_prob=0.15, containers=("set", "list", "tuple", "frozenset", "live"),
+            n0min=1, max_cells=4, region_steps=True):
     dim = draw(st.sampled_from(dims))
     if dim == 3:
         pmax = min(pmax, 2)
         n0max = min(n0max, 2)
-    kvs = [draw(gk.knotvec(pmin=pmin, pmax=pmax, nmin=1, nmax=n0max if dim > 1 else n0max + 2, decades=1,
+    kvs = [draw(gk.knotvec(pmin=pmin, pmax=pmax, nmin=n0min, nmax=n0max if dim > 1 else n0max + 2, decades=1,
                            interval="unit", mult_prob=mult_prob)) for _ in range(dim)]
     nsteps = draw(st.integers(1, max_steps))
     steps = []
     for _ in range(nsteps):
-        kind = draw(st.sampled_from(["refine", "refine", "refine", "region"]))
+        kind = draw(st.sampled_from(["refine", "refine", "refine", "region"] if region_steps else ["refine"]))
         if kind == "refine":
             nlv = draw(st.integers(1, 2))
             marks = []
@@ -29,7 +30,7 @@ def history(draw, dims=(1, 2), pmin=1, pmax=3, n0max=3, max_steps=3, max_levels=
                 if draw(st.integers(0, 5)) == 0:
                     cells = "all"       # every active cell of the level
                 else:
-                    cells = [draw(st.integers(0, 63)) for _ in range(draw(st.integers(1, 4)))]
+                    cells = [draw(st.integers(0, 63)) for _ in range(draw(st.integers(1, max_cells)))]
                 marks.append([lvsel, cells])
             steps.append({"kind": "refine", "marks": marks, "container": draw(st.sampled_from(containers))})
         else:
